@@ -39,6 +39,7 @@ Fifth round: C18.3 every input of the timestamp merge of the server-trace archiv
 Sixth round: C18.2 the archivers keep nothing in module-level state between runs.
 Seventh round: C18.4 download_batch (a prefix query on event names) is used on trace tables only; C18.5 every row of a finished snapshot is loaded into the history, whatever live records exist.
 Eighth round: C18.5 the reader skips the snapshots only while the instance is scheduled (no other condition on consulting the history).
+Ninth round: C18.5 a snapshot that cannot be read fails the read of the history (no handler around the downloads of either reader).
 Does NOT decide retrievability from the produced snapshot nor every crash cut
 beyond the upload-before-delete ordering.
 """
